@@ -31,10 +31,12 @@ Near(c) == Cardinality({d \in {"pcls", "qcls", "bshape", "bcls", "ctype"} : c[d]
 Family == {c \in Cases : Near(c) /\ (~BodyVerb(c.verb) => (c.bshape = "string" /\ c.bcls = "ord" /\ c.ctype = "json"))}
           \cup {c \in DefaultCases : c.bcls = "ord" \/ c.ctype = "json"}
 
-Fields(c) == IF c.route = "default" THEN <<"b">> ELSE IF BodyVerb(c.verb) THEN <<"p", "q", "rq", "b">> ELSE <<"p", "q", "rq">>
+\* rep: a repeated query parameter, oq: a proto3-optional one (presence counts)
+Fields(c) == IF c.route = "default" THEN <<"b">> ELSE IF BodyVerb(c.verb) THEN <<"p", "q", "rq", "rep", "oq", "b">> ELSE <<"p", "q", "rq", "rep", "oq">>
 RpcOf(c) == [name |-> "M", verb |-> c.verb, fields |-> Fields(c), pathVars |-> IF c.route = "default" THEN <<>> ELSE <<"p">>,
              query |-> IF c.route = "default" THEN <<>>
-                       ELSE <<[field |-> "q", name |-> "q", required |-> FALSE], [field |-> "rq", name |-> "rq", required |-> TRUE]>>]
+                       ELSE <<[field |-> "q", name |-> "q", required |-> FALSE], [field |-> "rq", name |-> "rq", required |-> TRUE],
+                              [field |-> "rep", name |-> "rep", required |-> FALSE], [field |-> "oq", name |-> "oq", required |-> FALSE]>>]
 ValOf(c) == [i \in DOMAIN Fields(c) |-> [k |-> Fields(c)[i], v |-> "V_" \o Fields(c)[i]]]
 CallOf(c) == [rpc |-> RpcOf(c), value |-> ValOf(c), zero |-> [i \in DOMAIN Fields(c) |-> [k |-> Fields(c)[i], v |-> "Z_" \o Fields(c)[i]]],
               ctype |-> c.ctype, resp |-> "RESP", handler |-> c.handler, hdrs |-> <<>>]
